@@ -35,7 +35,8 @@ COMPONENTS = {
         "bits.utils.privkey_int / compute_point / pubkey / point, bits.ecmath.point_scalar_mul / point_add / field helpers",
         "bits.__main__.main() for `bits key -0x` (argument parsing, Config, write_bytes), run in-process with captured stdout",
     ],
-    "stub": ["entropy source: secrets.* and os.urandom scripted by a per-operation tape (0, 1, n-1, n-2, mid, repeated draws, pairs differing only in high or only in low bits)"],
+    "stub": [
+        "thread scheduler for the concurrent stratum (2-4 simulated caller threads, line-level pre-emption inside ecmath/utils/keys, package re-imported per run)","entropy source: secrets.* and os.urandom scripted by a per-operation tape (0, 1, n-1, n-2, mid, repeated draws, pairs differing only in high or only in low bits)"],
 }
 RULE = (
     "one evaluation = one seeded history of key generations (API and CLI) under a scripted entropy tape; every generated key must be accepted by privkey_int, its compressed and uncompressed "
